@@ -713,3 +713,29 @@ func NestedLexGrammar(r *rand.Rand, depth int) *Grammar {
 		LexDef{Kind: DIgn, Name: "!ws", Pat: Alts([]Term{Lit(' ')}, []Term{Lit('\n')})})
 	return g
 }
+
+// HugeLexGrammar: legal but very long constructs - a token with n single-character
+// alternatives, a token that is one sequence of n characters, a token with a repetition over an
+// n-way alternation - next to ordinary short tokens.
+func HugeLexGrammar(r *rand.Rand, n int) *Grammar {
+	g := &Grammar{}
+	var alts [][]Term
+	base := rune(0x100)
+	if r.Intn(2) == 0 {
+		base = 0x4e00
+	}
+	for i := 0; i < n; i++ {
+		alts = append(alts, []Term{Lit(base + rune(i))})
+	}
+	var seq []Term
+	for i := 0; i < n; i++ {
+		seq = append(seq, Lit(rune('a'+(i*7+i/26)%26)))
+	}
+	g.Lex = append(g.Lex,
+		LexDef{Kind: DTok, Name: "glyph", Pat: Alts(alts...)},
+		LexDef{Kind: DTok, Name: "longword", Pat: Seq(seq...)},
+		LexDef{Kind: DTok, Name: "word", Pat: Seq(Rng('a', 'z'), Rep(Seq(Rng('a', 'z'))))},
+		LexDef{Kind: DTok, Name: "glyphs", Pat: Seq(Lit('#'), Rep(Alts(alts[:n/2]...)), Lit('#'))},
+		LexDef{Kind: DIgn, Name: "!ws", Pat: Alts([]Term{Lit(' ')}, []Term{Lit('\n')})})
+	return g
+}
